@@ -779,6 +779,7 @@ def oracle_c12(world, result):
     P["trainable_moved"] = int(moved_trainable)
     P["teleport_fired"] = int(any(s["fault"] == E.F_TELEPORT for s in result["steps"]))
     P["default_loss_and_optimizer"] = int(bool(world.get("use_defaults")))
+    P["enumerated_block_runs"] = int(world.get("enumerated") is not None)
     # 2./3. state invariants --------------------------------------------------------------
     xs, cs = _probe_points(world, result)
     n_checked = n_vac = 0
@@ -1035,6 +1036,7 @@ def oracle_c09(world, result):
             break
     P["states_checked"] = n_checked
     P["vacuous_states"] = n_vac
+    P["enumerated_block_runs"] = int(world.get("enumerated") is not None)
     P["teleport_fired"] = int(any(s["fault"] == E.F_TELEPORT for s in result["steps"]))
     P["sig_cond"] = int(bool(world["model"].get("cond_dim")))
     P["prelude_models"] = len(world.get("prelude", []))
@@ -1108,6 +1110,7 @@ def oracle_c18(world, result):
             V.append({"clause": "c18.loss_nan", "detail": f"validation loss is NaN at finite parameters (fault row in batch: {le[i]['has_fault_row']})"})
             break
     P["poison_checks"] = n_poison_checked
+    P["enumerated_block_runs"] = int(world.get("enumerated") is not None)
     P["sig_fault_hit"] = int(P.get("finite_loss_with_fault_row", 0) > 0)
     # end-to-end: if no batch loss was ever non-finite, nothing may be non-finite at the end
     if all(np.isfinite(e["value"]) and abs(e["value"]) <= HUGE_LOSS for e in le) and steps:
